@@ -65,6 +65,21 @@ Proof.
   apply Nat.eqb_eq in E. eauto.
 Qed.
 
+(* the entry a request built itself is its outcome in the sense of the code's comparison ([is_outcome_of]) *)
+Lemma e2_entry_of_outcome : forall t a e, entry_of t a e -> is_outcome_of (t_req a) e = true.
+Proof.
+  intros t a e (_&_&_&Rv&_&K&M). unfold is_outcome_of. rewrite K, M. unfold rev_key in Rv.
+  destruct (rq_kind (t_req a)); cbn; rewrite ?Rv; auto using Nat.eqb_refl, N.eqb_refl.
+Qed.
+Lemma e2_outcome_same_kind : forall rq e, is_outcome_of rq e = true -> same_kind (e_kind e) (rq_kind rq) = true.
+Proof. intros rq e H. unfold is_outcome_of in H. destruct (rq_kind rq), (e_kind e); try discriminate; reflexivity. Qed.
+Lemma e2_outcome_reverts : forall rq e, is_outcome_of rq e = true -> rq_kind rq = KRevert ->
+  e_reverts e = Some (rq_revert rq).
+Proof.
+  intros rq e H K. unfold is_outcome_of in H. rewrite K in H. destruct (e_kind e); try discriminate.
+  destruct (e_reverts e) as [x|]; [|discriminate]. apply Nat.eqb_eq in H. congruence.
+Qed.
+
 (* ---- the shared invariant ------------------------------------------------------------------------------------- *)
 Record BInv (s : state) : Prop := {
   b_tl : forall t a, gth s t = Some a -> TL t a /\ (forall e, t_entry a = Some e -> e_uid e < v_uid s);
@@ -79,8 +94,8 @@ Record BInv (s : state) : Prop := {
   b_done : forall t a, gth s t = Some a -> (t_pc a = PDone \/ (t_pc a = PUnlocked /\ good a = true)) ->
             rq_dry (t_req a) = false -> exists e, t_entry a = Some e /\ In e (persisted s);
   b_ok : forall t a x, gth s t = Some a -> t_resp a = Some (ROk x) -> rq_dry (t_req a) = false ->
-            exists e, In e (persisted s) /\ e_ik e = rq_ik (t_req a) /\
-                      (e_txid e = x \/ (same_kind (e_kind e) (rq_kind (t_req a)) = false /\ x = None));
+            exists e, In e (persisted s) /\ e_ik e = rq_ik (t_req a) /\ e_txid e = x /\
+                      is_outcome_of (t_req a) e = true;
   b_found : forall t a, gth s t = Some a -> rq_kind (t_req a) = KRevert -> rev_found (t_pc a) = true ->
             find_tx (persisted s) (rq_revert (t_req a)) <> None;
   b_revtx : forall x id, In x (all_entries s) -> e_reverts x = Some id -> find_tx (persisted s) id <> None
@@ -312,23 +327,25 @@ Section Step.
   Qed.
 
   Lemma e2s_ok : forall t1 a1 x, gth s' t1 = Some a1 -> t_resp a1 = Some (ROk x) -> rq_dry (t_req a1) = false ->
-            exists e, In e (persisted s') /\ e_ik e = rq_ik (t_req a1) /\
-                      (e_txid e = x \/ (same_kind (e_kind e) (rq_kind (t_req a1)) = false /\ x = None)).
+            exists e, In e (persisted s') /\ e_ik e = rq_ik (t_req a1) /\ e_txid e = x /\
+                      is_outcome_of (t_req a1) e = true.
   Proof.
     intros t1 a1 x H Hr Hd. pose proof Heff as Heff'. e2_eff_names Heff'. rewrite Ep. e2_who Hnew H t1 t a1 E.
     - rewrite Ereq in *. specialize (Fresp _ Hr). cbn in Fresp.
       destruct Fresp as [(Pu&G&X&_)|[(Pd&X&Tx&_)|(e&Pl&X)]].
       + assert (Ha : gth s t = Some a) by (apply e2s_oldP; rewrite Pu; discriminate).
         destruct (b_done s B _ _ Ha (or_intror (conj Pu G)) Hd) as [e [He Hin]].
-        destruct (proj1 (b_tl s B _ _ Ha)) as (_&_&_&T3&_). destruct (T3 e He) as (_&I&_&_&Tx&_).
+        destruct (proj1 (b_tl s B _ _ Ha)) as (_&_&_&T3&_). pose proof (e2_entry_of_outcome _ _ _ (T3 e He)) as Oc.
+        destruct (T3 e He) as (_&I&_&_&Tx&_).
         exists e. subst x. auto.
       + assert (Ha : gth s t = Some a) by (apply e2s_oldP; rewrite Pd; discriminate).
         destruct (b_done s B _ _ Ha (or_introl Pd) Hd) as [e [He Hin]].
-        destruct (proj1 (b_tl s B _ _ Ha)) as (_&_&_&T3&_). destruct (T3 e He) as (_&I&_&_&Tx'&_).
-        exists e. subst x. split; [exact Hin|]. split; [exact I|left; congruence].
+        destruct (proj1 (b_tl s B _ _ Ha)) as (_&_&_&T3&_). pose proof (e2_entry_of_outcome _ _ _ (T3 e He)) as Oc.
+        destruct (T3 e He) as (_&I&_&_&Tx'&_).
+        exists e. subst x. split; [exact Hin|]. split; [exact I|]. split; [congruence|exact Oc].
       + assert (Ha : gth s t = Some a) by (apply e2s_oldP; rewrite Pl; discriminate).
         destruct (b_look s B _ _ _ Ha Pl) as [Hin I]. exists e. split; [exact Hin|]. split; [exact I|].
-        destruct X as [[K X]|[K X]]; [left; congruence|right; split; assumption].
+        destruct X as [K X]. split; [congruence|exact K].
     - exact (b_ok s B _ _ _ H Hr Hd).
   Qed.
 
@@ -417,7 +434,7 @@ Proof.
   destruct (e2_pc_fin_dec (t_pc a)) as [F|F]; [rewrite (K5 F); exact T|].
   destruct T as (T0&T1&T2&T3&T4&T5&T6&T7&T13). unfold TL. rewrite K1, K2, K3, K4. cbn.
   split; [congruence|]. split; [intros E; split; [reflexivity|exact (proj2 (T1 E))]|].
-  split; [intros; discriminate|]. split; [intros e He; destruct (T3 e He) as (A&B0&C&D&E&F0); unfold entry_of; rewrite K1, K3; repeat split; assumption|].
+  split; [intros; discriminate|]. split; [intros e He; destruct (T3 e He) as (A&B0&C&D&E&F0&G0); unfold entry_of; rewrite K1, K3; repeat split; assumption|].
   split; [intros; discriminate|]. split; [intros; discriminate|]. split; [intros; discriminate|]. split; [intros; discriminate|].
   intros err E. rewrite (K6 F) in E. discriminate.
 Qed.
